@@ -73,9 +73,32 @@ Present(f, v) ==
   ELSE IF IsScalar(f.type) /\ ~NoDef(f) THEN v # f.def
   ELSE TRUE
 
+(***************************************************************************)
+(* Structural equality of two values of a type (C18).  nil and empty       *)
+(* containers / binaries are equal; an unset optional scalar or struct     *)
+(* differs from every set one; maps are compared key-wise (keys by value); *)
+(* lists and sets element-wise in order.                                   *)
+(***************************************************************************)
+IsEmptyLike(t, v) == IsNil(v) \/ (t.n \in {"list", "set"} /\ v.l = <<>>) \/ (t.n = "map" /\ v.m = <<>>)
+                               \/ (t.n = "binary" /\ v = [a |-> "bin:"])
+RECURSIVE Eq(_, _, _)
+Eq(t, x, y) ==
+  IF IsNil(x) \/ IsNil(y)
+  THEN IF t.n \in {"list", "set", "map", "binary"} THEN IsEmptyLike(t, x) /\ IsEmptyLike(t, y)
+       ELSE IsNil(x) /\ IsNil(y)
+  ELSE CASE IsScalar(t) -> x.a = y.a
+    [] t.n \in {"list", "set"} -> /\ Len(x.l) = Len(y.l)
+                                  /\ \A i \in 1..Len(x.l) : Eq(t.v, x.l[i], y.l[i])
+    [] t.n = "map" -> /\ Len(x.m) = Len(y.m)
+                      /\ \A i \in 1..Len(x.m) : \E j \in 1..Len(y.m) :
+                            Eq(t.k, x.m[i][1], y.m[j][1]) /\ Eq(t.v, x.m[i][2], y.m[j][2])
+    [] t.n = "struct" -> \A i \in FieldIdx(t.s) :
+                            Eq(Fields(t.s)[i].type, x.s[Fields(t.s)[i].name], y.s[Fields(t.s)[i].name])
+
 SetMembers(s, v) == {i \in FieldIdx(s) : ~IsNil(v.s[Fields(s)[i].name])}
 
-(* A union value is writable iff exactly one member is set -- anywhere in the value. *)
+(* A value is writable iff every union in it has exactly one member set and no set in it *)
+(* holds two equal elements.                                                              *)
 RECURSIVE Writable(_, _)
 Writable(t, v) ==
   IF IsNil(v) THEN (t.n # "struct" \/ StructOf(t.s).kind # "union")  \* a nil union has 0 members set
@@ -84,7 +107,9 @@ Writable(t, v) ==
               /\ \A i \in FieldIdx(t.s) :
                     LET f == Fields(t.s)[i] IN
                     Present(f, v.s[f.name]) => Writable(f.type, v.s[f.name])
-         [] t.n \in {"list", "set"} -> \A i \in 1..Len(v.l) : Writable(t.v, v.l[i])
+         [] t.n = "list" -> \A i \in 1..Len(v.l) : Writable(t.v, v.l[i])
+         [] t.n = "set" -> /\ \A i \in 1..Len(v.l) : Writable(t.v, v.l[i])
+                           /\ \A i, j \in 1..Len(v.l) : i < j => ~Eq(t.v, v.l[i], v.l[j])
          [] t.n = "map" -> \A i \in 1..Len(v.m) : Writable(t.k, v.m[i][1]) /\ Writable(t.v, v.m[i][2])
          [] OTHER -> TRUE
 
